@@ -199,7 +199,12 @@ def step (c impl : String) : String :=
                   if v1side then "the default engine is wrong here (C01 findings F1/F12), the weighted-graph engine agrees with the reference semantics"
                   else
                     let d := diagnose w v1w v1
-                    if d.startsWith "unexplained" then "V2-C the detector reports no reason (the shape is not in its catalogue)" else d
+                    -- V2-C only when the engine behaves exactly as modelled (untainted): a genuine difference of the two
+                    -- engines' semantics for this subject that the detector's catalogue does not cover
+                    let asModelled := (checkSet w 2).any (fun o => renderV o = x && (match o with | .ok _ t => !t | _ => false))
+                    if d.startsWith "unexplained (the model of the engine is untainted)" && asModelled then
+                      "V2-C the detector reports no reason (the shape is not in its catalogue)"
+                    else d
                 some s!"{kind} subject: default engine {v1}, weighted-graph engine ({name}) {x}, no breaking-change reason reported: {why}"
             else none)))
       -- (3) request-shape errors go with the documented reason and the fallback
